@@ -47,11 +47,12 @@ func vpLevelOK(old, new, senderLevel int64) bool {
 	return old == new || (old <= senderLevel && new <= senderLevel)
 }
 
-// vp:check C08 both configs=plcheck:v1|v2;focus:users|events|notif K=12
+// vp:check C08 quick configs=plcheck:v1|v2;focus:users|events|notif;m:1 K=12
+// vp:check C08 thorough configs=plcheck:v1|v2;focus:users|events|notif;m:2 K=12 timeout=1800
 // vp_C08_levels: whenever the three power-level checks accept (as powerLevelsEventAllowed chains them), no threshold
 // and no user level has been raised above, or changed from above, the sender's current level.
 func vp_C08_levels() {
-	m := 2
+	m := vpConfigInt("m")
 	focus := vpConfig("focus")
 	old := vpAnyPowerLevels("old", m, focus)
 	new := vpAnyPowerLevels("new", m, focus)
